@@ -2092,6 +2092,32 @@ impl<'a> Searcher<'a> {
             // wildcards make a pattern of a literal, not of another column's value (`name = ext`)
             let literal = expr.right.as_ref().is_some_and(|right| right.val.is_some());
 
+            // a numeric column takes part in a numeric comparison only with numbers on both sides: an entry
+            // that has no value there (the line count of a directory), or another column's value that is
+            // no number, equals nothing and lies on neither side of anything; a literal that is no number
+            // (`uid = 'root'`) is a mistake in the query, as `is_dir = 7` is
+            if !matches!(op, Op::Rx | Op::NotRx | Op::Like | Op::NotLike) {
+                let numeric_column = expr
+                    .left
+                    .as_ref()
+                    .and_then(|left| left.field)
+                    .is_some_and(|field| field.is_numeric_field());
+                let number = |text: &str| {
+                    text.parse::<f64>().is_ok() || parse_filesize_exact(text).is_some()
+                };
+                let no_value = numeric_column && field_value.to_string().is_empty();
+                let no_number = matches!(
+                    field_value.get_type(),
+                    VariantType::Int | VariantType::Float
+                ) && !number(&value.to_string());
+                if literal && (no_number || numeric_column && !number(&value.to_string())) {
+                    error_exit("Can't parse number", &value.to_string());
+                }
+                if no_value || no_number {
+                    return matches!(op, Op::Ne | Op::Ene);
+                }
+            }
+
             // pattern operators work on the text of any value (`size like '1%'`)
             let field_type = match op {
                 Op::Rx | Op::NotRx | Op::Like | Op::NotLike => &VariantType::String,
